@@ -78,8 +78,14 @@ def gen(rng, tier, quarantine=()):
     # a few ordinary variables in the same stream: entry precedes, exit follows all of them
     from .. import ir
 
-    names = [n for n, f in ir.bound_names(fnir).items() if f != {"decl"}]
-    for n in rng.sample(names, min(len(names), rng.choice([0, 1, 2]))):
+    forms = ir.bound_names(fnir)
+    names = [n for n, f in forms.items() if f != {"decl"}]
+    picked = rng.sample(names, min(len(names), rng.choice([0, 1, 2])))
+    # parameters are bound "at entry" all together: the relative order of two parameters'
+    # events is not specified, so at most one parameter goes into the merged stream
+    params = [n for n in picked if "param" in forms[n]]
+    picked = [n for n in picked if n not in params[1:]]
+    for n in picked:
         sels.append(meta_sel(qual, n))
     if rng.random() < 0.3:
         # drop a random subset so that the delimiters come from partial capture sets too
